@@ -153,8 +153,12 @@ func judge(sc clientx.Sc, with, without clientx.Run, c Case, res *ev.Result) {
 		bad("before-parse-count", fmt.Sprintf("parser was reached (outcome err=%v) but BeforeParse was called %d times", with.Err, len(bp)))
 		return
 	}
-	if !reached && len(bp) != 0 {
-		bad("before-parse-spurious", fmt.Sprintf("BeforeParse called %d times although the call failed before parsing (%v)", len(bp), with.Err))
+	// (A BeforeParse call on a path that does not reach the parser - e.g. for an exception reply recognised by the read
+	// loop - is not ruled out by the statement, which only speaks about what happens "whenever a reply is handed to the
+	// parser"; such a call was still checked above to carry exactly the concatenation of the bytes read. More than one
+	// call can never be right.)
+	if !reached && len(bp) > 1 {
+		bad("before-parse-count", fmt.Sprintf("BeforeParse called %d times in one request call (%v)", len(bp), with.Err))
 	}
 }
 
